@@ -47,6 +47,8 @@ type Profile struct {
 	EmptyFeeP    float64  // probability of a fee action with an empty list
 	InitLimitP   float64  // probability that the run starts by raising the passthrough limit
 	ModeBEvery   int      // k>0: every k-th run uses the interposed (mode B) node
+	BigBatchP    float64  // probability that a pause-cross-chains message carries a batch around the limit of 100 identifiers
+	CrashP       float64  // probability that the node crashes between executing and committing a block (and re-executes it after the restart)
 	SimP         float64  // probability that a block's transactions are first simulated on the node (gas estimation; discarded)
 	GhostTokenP  float64  // per step: probability of starting the "token created only in a simulation" scenario
 	InjectP      float64  // mode-B runs: probability that a lone delivery gets an injected downstream failure
@@ -77,8 +79,13 @@ type genState struct {
 	gasCutP  float64
 	started  bool
 	script   []func(s *Sim) (Op, bool) // a drawn multi-step scenario in progress: its remaining steps come first
+	memoPool []memoEntry
+	otherTokenDenom string
+	scriptTight bool // the steps of the scenario in progress follow each other without other ops in between
 	noIGP    bool // scenario generators that need a known-good destination avoid the fee-charging Hyperlane token
 }
+
+type memoEntry struct{ memo, denom string }
 
 func newGen(r *Rng, prof *Profile) *genState {
 	g := &genState{r: r, prof: prof, nextID: 1, w: map[string]int{}, classW: map[string]int{}}
@@ -519,6 +526,33 @@ var refuseEdits = []refuseEdit{
 		act := m[i+len(`"pre_actions":[`) : j]
 		return m[:j] + "," + act + m[j:], true
 	}},
+	{"C16:hyperlane-token-of-another-denomination", func(g *genState, s *Sim, p *MPayload, A *big.Int) (string, bool) {
+		// a real, routed Hyperlane token whose collateral is not the coin that arrived
+		if p.Proto != "PROTOCOL_HYPERLANE" || p.Swap != nil {
+			return "", false
+		}
+		var others [][]byte
+		var denoms []string
+		for i, t := range [][]byte{s.Env.HypTokens[DenomUSDC].Bytes(), s.Env.HypTokens[DenomHuge].Bytes(), s.Env.HypIGPToken.Bytes()} {
+			if !bytesEq(t, p.Token) {
+				others = append(others, t)
+				denoms = append(denoms, []string{DenomUSDC, DenomHuge, DenomOther}[i])
+			}
+		}
+		q := *p
+		k := g.r.Intn(len(others))
+		// prefer a token whose collateral denomination is lying on the orbiter account right now
+		for i, d := range denoms {
+			if s.Ledger.Get(s.Env.Orbiter.String(), d).IsPositive() && g.r.Intn(4) > 0 {
+				k = i
+			}
+		}
+		q.Token, g.otherTokenDenom = others[k], denoms[k]
+		if bytesEq(p.Token, s.Env.HypIGPToken.Bytes()) {
+			q.GasLimit, q.MaxFeeDenom, q.MaxFeeAmt = "0", DenomUSDC, "0"
+		}
+		return q.Canonical(), true
+	}},
 	{"C14:extra-root-key", func(g *genState, s *Sim, p *MPayload, A *big.Int) (string, bool) {
 		m := p.Canonical()
 		return m[:len(m)-1] + `,"other":{}}`, true
@@ -811,6 +845,28 @@ func (g *genState) genSend(s *Sim) Op {
 		if via, ok := viaConstructors(s, p); ok && p.Swap == nil && via != op.Memo {
 			panic(harnessErr("model serialisation differs from the module's constructors+MarshalJSON:\n model: %s\n module: %s", op.Memo, via))
 		}
+		if len(g.memoPool) > 0 && r.Bool(0.15) {
+			// a memo seen before in this run, byte for byte, with another amount (front ends reuse route templates)
+			e := g.memoPool[r.Intn(len(g.memoPool))]
+			if e.denom != DenomHuge {
+				u := s.Env.Remote[op.Pair][op.User]
+				if op.Denom == DenomHuge {
+					op.Pair, op.User = r.Intn(NumPairs), r.Intn(NumRemote)
+					u = s.Env.Remote[op.Pair][op.User]
+				}
+				nb := s.Ledger.Get(u.Addr.String(), voucherOnB(op.Pair, e.denom)).BigInt()
+				na := g.genAmount(e.denom, nil)
+				if na.Cmp(nb) > 0 {
+					na = nb
+				}
+				if na.Sign() > 0 {
+					op.Denom, op.Memo, op.Amt = e.denom, e.memo, na.String()
+					s.Stats.Probe("memo_reused_with_another_amount")
+				}
+			}
+		} else if len(g.memoPool) < 12 {
+			g.memoPool = append(g.memoPool, memoEntry{op.Memo, op.Denom})
+		}
 		if r.Intn(12) == 0 {
 			op.Recv = strings.ToUpper(op.Recv)
 			op.Class = "canon-upper"
@@ -821,6 +877,16 @@ func (g *genState) genSend(s *Sim) Op {
 			op.Class, op.Memo = "canon", p.Canonical()
 		} else {
 			op.Class, op.Memo = "refuse:"+tag, memo
+			if tag == "C16:hyperlane-token-of-another-denomination" {
+				// an amount the coins lying on the orbiter account in the token's own denomination could cover
+				if d := s.Ledger.Get(s.Env.Orbiter.String(), g.otherTokenDenom).BigInt(); d.Sign() > 0 && d.Cmp(A) < 0 && !p.HasFee {
+					op.Amt = d.String()
+					if d.Cmp(big.NewInt(4)) > 0 && r.Intn(2) == 0 {
+						op.Amt = new(big.Int).Sub(d, big.NewInt(int64(r.Intn(3)))).String()
+					}
+					s.Stats.Probe("foreign_token_with_amount_covered_by_dust")
+				}
+			}
 		}
 	case "free":
 		op.Class = "free"
@@ -934,6 +1000,12 @@ func (g *genState) genByz(s *Sim) Op {
 		denoms := []string{prefix + DenomUSDC, prefix + "transfer/channel-9/" + DenomUSDC, DenomUSDC, prefix, prefix + "/", prefix + "a/b", "transfer/channel-77/" + DenomUSDC, prefix + DenomUSDC + "/", prefix + "ibc/ABCDEF", strings.ToUpper(prefix + DenomUSDC)}
 		amts := []string{"1000", "0", "-1", "0x10", "1_000", "+5", " 7", "1e3", "", "115792089237316195423570985008687907853269984665640564039457584007913129639936", "115792089237316195423570985008687907853269984665640564039457584007913129639935", "1.0"}
 		d := map[string]any{"denom": denoms[r.Intn(len(denoms))], "amount": amts[r.Intn(len(amts))], "sender": s.Env.Remote[op.Pair][0].Addr.String(), "receiver": orb, "memo": memo}
+		if r.Intn(4) == 0 {
+			// spellings that ibc-go's integer parser reads in another base or with separators: the coin ICS-20 credits
+			// is what counts, whatever the digits look like
+			d["denom"] = prefix + DenomUSDC
+			d["amount"] = pickStr(r, []string{"0777", "0000100", "010", "0x10", "0X1f", "0b1010", "0o17", "1_000", "+5", "00", "09", "0x", "1__0"})
+		}
 		if r.Intn(4) == 0 {
 			d["memo"] = g.mutateJSON(memo)
 		}
@@ -1068,13 +1140,14 @@ func (g *genState) genOrbiterAdmin(s *Sim) Op {
 			n = 2 + r.Intn(3)
 		}
 		op.Ids = dedupe(pickIDs(op.Proto, n), r.Intn(6) == 0)
-		if r.Intn(25) == 0 {
+		if r.Bool(g.prof.BigBatchP) {
 			// a large batch (over the limit of 100, or exactly at it)
-			k := []int{100, 101, 150}[r.Intn(3)]
-			op.Proto = "PROTOCOL_CCTP"
+			k := []int{100, 101, 150, 60, 99}[r.Intn(5)]
+			base := 1000 + 45*r.Intn(4) // batches of one run overlap partly
+			op.Proto = []string{"PROTOCOL_CCTP", "PROTOCOL_CCTP", "PROTOCOL_HYPERLANE"}[r.Intn(3)]
 			op.Ids = nil
 			for i := 0; i < k; i++ {
-				op.Ids = append(op.Ids, fmt.Sprintf("%d", 1000+i))
+				op.Ids = append(op.Ids, fmt.Sprintf("%d", base+i))
 			}
 		}
 		if r.Intn(15) == 0 {
@@ -1106,11 +1179,22 @@ func (g *genState) genOrbiterAdmin(s *Sim) Op {
 		}
 	case 9:
 		op.Msg, op.Act = "PauseAction", "ACTION_FEE"
-		if r.Intn(8) == 0 {
-			op.Act = pickStr(r, []string{"ACTION_SWAP", "ACTION_UNSUPPORTED", "ACTION_X", ""})
+		if r.Intn(4) == 0 {
+			op.Act = "ACTION_SWAP"
+		}
+		if r.Intn(10) == 0 {
+			op.Act = pickStr(r, []string{"ACTION_UNSUPPORTED", "ACTION_X", "", "1", "action_fee"})
 		}
 	case 10:
 		op.Msg, op.Act = "UnpauseAction", "ACTION_FEE"
+		if ks := sortedKeys(s.Model.PausedAct); len(ks) > 0 && r.Intn(4) > 0 {
+			op.Act = ks[r.Intn(len(ks))]
+		} else if r.Intn(4) == 0 {
+			op.Act = "ACTION_SWAP"
+		}
+		if r.Intn(14) == 0 {
+			op.Act = pickStr(r, []string{"ACTION_UNSUPPORTED", "ACTION_X", ""})
+		}
 	default:
 		op.Msg = "UpdateParams"
 		op.N = uint64([]int{0, 0, 1, 16, 64, 100, 1000, 5000}[r.Intn(8)])
@@ -1223,7 +1307,7 @@ func (g *genState) Next(s *Sim) Op {
 			return Op{ID: g.id(), K: "admin", Msg: "UpdateParams", N: uint64([]int{16, 64, 1000}[r.Intn(3)])}
 		}
 	}
-	for len(g.script) > 0 && !r.Bool(0.2) {
+	for len(g.script) > 0 && (g.scriptTight || !r.Bool(0.2)) {
 		f := g.script[0]
 		g.script = g.script[1:]
 		if op, ok := f(s); ok {
@@ -1251,6 +1335,23 @@ func (g *genState) Next(s *Sim) Op {
 			return g.genByz(s)
 		case "deliver":
 			if op, ok := g.genDeliver(s); ok {
+				if s.ModeB != nil && len(op.Refs) <= 1 && len(g.script) == 0 && r.Bool(g.prof.InjectP) {
+					// mode B: this delivery gets a block of its own in which one downstream call fails or panics
+					inj := fmt.Sprintf("%d:%d", r.Intn(12), 1+r.Intn(3))
+					dop := op
+					g.scriptTight = true
+					g.script = []func(s *Sim) (Op, bool){
+						func(s *Sim) (Op, bool) { return dop, true },
+						func(s *Sim) (Op, bool) {
+							g.scriptTight = false
+							return Op{ID: g.id(), K: "block", Dt: 1 + r.Intn(10), Inject: inj}, true
+						},
+					}
+					if len(s.Mempool) > 0 || s.dirtyState {
+						return Op{ID: g.id(), K: "block", Dt: 5}
+					}
+					return g.Next(s)
+				}
 				if r.Bool(g.prof.SingleTxP) && len(s.Mempool) > 0 {
 					// flush what is pending first so that this delivery gets a block of its own
 					return Op{ID: g.id(), K: "block", Dt: 5}
@@ -1275,11 +1376,14 @@ func (g *genState) Next(s *Sim) Op {
 			if len(s.Mempool) > 1 && r.Intn(3) == 0 {
 				op.Perm = r.U64() | 1
 			}
+			if len(s.Mempool) > 0 && r.Bool(g.prof.CrashP) {
+				op.Crash = true
+			}
 			if len(s.Mempool) > 0 && r.Bool(g.prof.SimP) {
 				op.Sim = r.U64() | 1<<uint(r.Intn(len(s.Mempool)))
 			}
 			if s.ModeB != nil && len(s.Mempool) == 1 && r.Bool(g.prof.InjectP) {
-				op.Inject = fmt.Sprintf("%d:%d", r.Intn(14), 1+r.Intn(2))
+				op.Inject = fmt.Sprintf("%d:%d", r.Intn(14), 1+r.Intn(3))
 			}
 			return op
 		case "restart":
